@@ -379,9 +379,58 @@ func (E *Engine) concCall(st *State, in ssa.Instruction, key string, cc *ssa.Cal
 			E.oblige(st, "lock-inv", fmt.Sprintf("%s.%s.%d", E.site(in), lr.spec.Field, i), ev.evalBool(cl.Expr), "monitor invariant re-established: "+cl.Text, E.pos(in), cl)
 		}
 		delete(st.locks, id)
+		st.ghost["lastunlock"] = fmt.Sprint(len(E.snaps))
+		E.snaps = append(E.snaps, copyHeap(st.heap))
 		return nil, true
 	}
+	if key == "(*sync.Once).Do" && len(args) == 2 {
+		return E.onceDo(st, in, args[1]), true
+	}
 	return E.chanCall(st, in, key, cc, args, res)
+}
+
+// onceDo: o.Do(f) runs f at most once over all calls. Thread-modular: either this call runs f
+// (f's contract is applied like a call) or f was run by an earlier / concurrent call (nothing
+// is known). f's precondition is checked in both cases.
+func (E *Engine) onceDo(st *State, in ssa.Instruction, fv *Val) []*State {
+	if fv.Fn == nil {
+		E.note("Once.Do with an unknown function value")
+		E.havocAll(st, "Once.Do of unknown function")
+		st.log = append(st.log, CallEvent{Label: "onceDo", Heap: copyHeap(st.heap)})
+		return nil
+	}
+	spec := E.CS.Funcs[fv.Fn.Key]
+	if spec == nil {
+		E.note("Once.Do(%s): no contract; whole heap havoced", fv.Fn.Key)
+		E.havocAll(st, "Once.Do "+fv.Fn.Key)
+		st.log = append(st.log, CallEvent{Label: "onceDo", Heap: copyHeap(st.heap)})
+		return nil
+	}
+	callee, _ := fv.Fn.Fn.(*ssa.Function)
+	if callee == nil {
+		E.havocAll(st, "Once.Do "+fv.Fn.Key)
+		return nil
+	}
+	run := st.clone()
+	E.applySpec(run, in, spec, callee, callee.Signature, nil, fv.Fn.Bindings, false)
+	run.log = append(run.log, CallEvent{Label: "onceDo", Args: []*Val{boolVal("true")}, Heap: copyHeap(run.heap)})
+	skip := st.clone()
+	// the precondition must hold whether or not this call is the one that runs f
+	{
+		vars := map[string]*Val{}
+		for i, v := range callee.FreeVars {
+			if i < len(fv.Fn.Bindings) {
+				nv := *fv.Fn.Bindings[i]
+				if _, isPtr := types.Unalias(v.Type()).Underlying().(*types.Pointer); isPtr {
+					nv.AutoDeref = true
+				}
+				vars[v.Name()] = &nv
+			}
+		}
+		_ = vars
+	}
+	skip.log = append(skip.log, CallEvent{Label: "onceDo", Args: []*Val{boolVal("false")}, Heap: copyHeap(skip.heap)})
+	return []*State{run, skip}
 }
 
 // havocProtectedContent: when a protected field is a map or slice, its
@@ -549,8 +598,7 @@ func (ev *cenv) concPred(name string, args []*CExpr) *Val {
 		return boolVal(E.chanClosed(ev.heap, c))
 	case "chancap":
 		c := ev.eval(args[0])
-		a := E.heapArrSort(ev.heap, "chan!cap", "(Array Int Int)")
-		return intVal(sx("select", a, c.S))
+		return intVal(E.chanCap(c))
 	}
 	ev.fail("unsupported predicate %s", name)
 	return nil
@@ -673,4 +721,152 @@ func (E *Engine) checkTypeInvs(st *State, in ssa.Instruction, v *Val, what strin
 	for i, f := range E.typeInvFormulas(st, v) {
 		E.oblige(st, "type-inv", fmt.Sprintf("%s.%d", E.site(in), i), f, "type invariant of "+shortTypeKey(v.T)+" holds for "+what, E.pos(in), nil)
 	}
+}
+
+// ---------------------------------------------------------------------------
+// Shared fields: `shared f [stable P(self)]` in a type block. A shared field is written and read
+// by several threads without a lock (publication through a channel close, an atomic flag, ...).
+// Thread-modular treatment: every read yields an arbitrary value satisfying the type's stable
+// predicates; every write to a shared field, and every close of a channel (the predicates may
+// speak about closed(..)), must re-establish the stable predicates of the object written / of
+// the objects whose channel field was closed.
+
+func (E *Engine) sharedField(lv *LVal) (*TypeSpec, string, bool) {
+	if lv == nil || lv.Kind != lvHeap || len(lv.Path) == 0 || lv.Root == nil {
+		return nil, "", false
+	}
+	ts := E.CS.Types[namedKey(lv.Root)]
+	if ts == nil || len(ts.Shared) == 0 {
+		return nil, "", false
+	}
+	sh := E.shape(lv.Root)
+	if lv.Path[0].Field >= len(sh.Fields) {
+		return nil, "", false
+	}
+	fname := sh.Fields[lv.Path[0].Field].Name
+	_, ok := ts.Shared[fname]
+	return ts, fname, ok
+}
+
+func (E *Engine) stableClauses(ts *TypeSpec) []*Clause {
+	var out []*Clause
+	seen := map[*Clause]bool{}
+	var names []string
+	for n := range ts.Shared {
+		names = append(names, n)
+	}
+	sort.Strings(names)
+	for _, n := range names {
+		if cl := ts.Shared[n]; cl != nil && !seen[cl] {
+			seen[cl] = true
+			out = append(out, cl)
+		}
+	}
+	return out
+}
+
+func (E *Engine) selfEnvRef(st *State, ref string, T types.Type, ctx *FileCtx) *cenv {
+	self := &Val{T: types.NewPointer(T), S: ref, Sort: SInt}
+	return &cenv{E: E, st: st, vars: map[string]*Val{"self": self}, heap: st.heap, ctx: ctx, fc: E.cur}
+}
+
+func (E *Engine) sharedRead(st *State, lv *LVal) {
+	ts, fname, ok := E.sharedField(lv)
+	if !ok {
+		return
+	}
+	// objects allocated by this activation and not yet published are still private — but
+	// publication is not tracked, so only the syntactically obvious case is exempted: none.
+	flv := &LVal{Kind: lvHeap, Ref: lv.Ref, Root: lv.Root, Path: lv.Path[:1]}
+	var facts []string
+	nv := E.freshVal(E.lvType(flv), "shared:"+fname, &facts)
+	E.store(st, flv, nv)
+	st.assume(facts...)
+	st.assume(E.allocFacts(st, nv)...)
+	for _, cl := range E.stableClauses(ts) {
+		ev := E.selfEnvRef(st, lv.Ref, lv.Root, cl.Ctx)
+		st.assume(ev.evalBool(cl.Expr))
+	}
+}
+
+func (E *Engine) sharedWrite(st *State, in ssa.Instruction, lv *LVal) {
+	ts, fname, ok := E.sharedField(lv)
+	if !ok || E.dry > 0 {
+		return
+	}
+	for i, cl := range E.stableClauses(ts) {
+		ev := E.selfEnvRef(st, lv.Ref, lv.Root, cl.Ctx)
+		ev.goal = true
+		E.oblige(st, "shared-stable", fmt.Sprintf("%s.%s.%d", E.site(in), fname, i), ev.evalBool(cl.Expr), "write to shared field "+fname+" keeps: "+cl.Text, E.pos(in), cl)
+	}
+}
+
+// sharedStableCheckAll: after a channel close, the stable predicates of every object of a type
+// with shared fields that this activation has touched (as receiver/parameter/free variable)
+// must still hold.
+func (E *Engine) sharedStableCheckAll(st *State, in ssa.Instruction, site string) {
+	if E.dry > 0 {
+		return
+	}
+	seen := map[string]bool{}
+	var names []string
+	for n := range st.env {
+		names = append(names, n)
+	}
+	sort.Strings(names)
+	for _, n := range names {
+		v := st.env[n]
+		if v == nil || v.T == nil || v.S == "" {
+			continue
+		}
+		p, ok := types.Unalias(v.T).Underlying().(*types.Pointer)
+		if !ok {
+			continue
+		}
+		ts := E.CS.Types[namedKey(p.Elem())]
+		if ts == nil || len(ts.Shared) == 0 || seen[v.S] {
+			continue
+		}
+		seen[v.S] = true
+		for i, cl := range E.stableClauses(ts) {
+			ev := E.selfEnvRef(st, v.S, p.Elem(), cl.Ctx)
+			ev.goal = true
+			E.oblige(st, "shared-stable", fmt.Sprintf("%s.%s.%d", site, n, i), or(eq(v.S, "0"), ev.evalBool(cl.Expr)), "close keeps: "+cl.Text, E.pos(in), cl)
+		}
+	}
+}
+
+// ---------------------------------------------------------------------------
+// Contribution ghosts: `tracks f by g` in a type block (g a declared ghost int field).
+// g is thread-local auxiliary state: this thread's net contribution to the shared counter f.
+// Every write f := v by this thread adds (v - old f) to g; g must stay >= 0 (a thread never
+// gives back more than it took). The global fact f = sum over threads of g_t, all g_t >= 0,
+// justifies a monitor invariant `self.f >= self.g`; it is the rely of every thread and each
+// thread's guarantee is exactly the two rules above.
+func (E *Engine) trackWrite(st *State, in ssa.Instruction, lv *LVal, nv *Val) {
+	if lv == nil || lv.Kind != lvHeap || len(lv.Path) != 1 || lv.Root == nil {
+		return
+	}
+	k := namedKey(lv.Root)
+	ts := E.CS.Types[k]
+	if ts == nil || len(ts.Tracks) == 0 {
+		return
+	}
+	sh := E.shape(lv.Root)
+	fname := sh.Fields[lv.Path[0].Field].Name
+	g, ok := ts.Tracks[fname]
+	if !ok {
+		return
+	}
+	old := E.load(st, st.heap, lv)
+	glv := E.ghostFieldLV(lv.Root, lv.Ref, g)
+	if glv == nil {
+		panic(engineErr("tracks: " + g + " is not a declared ghost field"))
+	}
+	cur := E.load(st, st.heap, glv)
+	upd := sx("+", cur.S, sx("-", nv.S, old.S))
+	if E.dry == 0 {
+		E.oblige(st, "tracker-nonneg", E.site(in)+"."+fname, sx(">=", upd, "0"), "this thread never gives back more of "+fname+" than it took ("+g+" >= 0)", E.pos(in), nil)
+	}
+	E.store(st, glv, &Val{T: cur.T, S: upd, Sort: SInt})
 }
